@@ -356,6 +356,15 @@ func c17Scenarios(c *fw.Ctx) []*Scenario {
 			cmd = &wcmd.DiffCommand{SrcBase: filepath.Join(root, "s"), SrcRelPath: "a.wsp", DestBase: filepath.Join(root, "d"), ArchiveID: -1, TextOut: outp}
 		case "copy":
 			cmd = &wcmd.CopyCommand{SrcBase: filepath.Join(root, "s"), SrcRelPath: "a.wsp", DestBase: filepath.Join(root, "d"), AggregationMethod: wt.Sum, ArchiveInfoList: archList(l.Archs), ArchiveID: -1, TextOut: outp, CopyNaN: true}
+		case "diff-remote":
+			// both sides behind the (free-running) server: the command's two readers are clients at the same time
+			srv, sroot := c12Server(c)
+			if srv == "" {
+				return cmdObs{cls: "no-server"}
+			}
+			(&BFile{L: l, Rings: c17Rings(l, 0)}).Write(filepath.Join(sroot, "cr", "a.wsp"))
+			(&BFile{L: l, Rings: c17Rings(l, 1)}).Write(filepath.Join(sroot, "cr", "b.wsp"))
+			cmd = &wcmd.DiffCommand{SrcBase: srv, SrcRelPath: "cr/a.wsp", DestBase: srv, DestRelPath: "cr/b.wsp", ArchiveID: -1, TextOut: outp}
 		}
 		err, pn := RunCommand(c17Now, cmd)
 		o := cmdObs{cls: classify(err, pn), text: readAndRemove(outp)}
@@ -364,7 +373,7 @@ func c17Scenarios(c *fw.Ctx) []*Scenario {
 		}
 		return o
 	}
-	for _, kind := range []string{"sum2", "sum3", "diff", "copy"} {
+	for _, kind := range []string{"sum2", "sum3", "diff", "copy", "diff-remote"} {
 		kind := kind
 		var solo *cmdObs
 		bound := b2
